@@ -47,21 +47,21 @@ type c12Model struct {
 	expiry   uint64 // unix time of the next month boundary
 	removeAt uint64 // >0: the paid time is over; from this height on the subscription must be gone
 	// advance purchase
-	hasFuture    bool
-	futureMonths uint64
-	futurePaid   math.Int
-	futurePlan   string
-	futureBlock  uint64
+	hasFuture     bool
+	futureMonths  uint64
+	futurePaid    math.Int
+	futurePlan    string
+	futureBlock   uint64
 	projectsAtEnd map[string]bool // projects that existed when the last paid month ended
 	cuTainted     bool            // a (muted, known) CU-total finding was already reported for this subscription
 }
 
 type c12Mon struct {
-	s      *Sim
-	model  map[string]*c12Model                         // consumer address -> ledger
-	prev   map[string]*subscriptiontypes.Subscription // newest entry seen at the last observation point
-	bal    map[string]math.Int                          // payer balances at the last observation point
-	payers []*Account
+	s            *Sim
+	model        map[string]*c12Model                       // consumer address -> ledger
+	prev         map[string]*subscriptiontypes.Subscription // newest entry seen at the last observation point
+	bal          map[string]math.Int                        // payer balances at the last observation point
+	payers       []*Account
 	prevProjects map[string][]string // consumer -> project ids at the last observation point
 }
 
